@@ -1,6 +1,7 @@
 package props
 
 import (
+	"fmt"
 	"go/types"
 	"strings"
 
@@ -20,7 +21,7 @@ func init() {
 			"comes from an 8-bit or 16-bit length prefix; LIVE the reporting loop returns only after the thread group stopped, and the sync round runs in its own goroutine; BANNED every assignment of the primary server is dominated by !Banned of the same key; " +
 			"MERGE an entry of the server map is written only if the key is new or the new entry is banned (ban knowledge is never lost), the map is replaced as a whole only in the verified-migration branch; PERSIST every mutation of the map is followed, " +
 			"before the lock is released, by writing SerializeGCAServerMap(c.gcaServers) to the file the loader reads. " +
-			"NOT decided: timing (how long a stalled server delays the next sync), the operating system's behaviour on partial writes, data races on Client.shortID (reported as a note; no listed property covers client races).",
+			"LIVE also: every round of the reporting loop passes a tg.Sleep. NOT decided: timing (how long a stalled server delays the next sync), the operating system's behaviour on partial writes, data races on Client.shortID (reported as a note; no listed property covers client races).",
 		Assumptions: append([]string{"io.ReadFull err==nil => n==len(buf); crypto/rand.Int returns a value in [0,max)", "os.WriteFile either succeeds or returns an error"}, baseAssumptions...),
 		Run:         runC11,
 	})
@@ -274,6 +275,40 @@ func clientLiveness(c *an.Ctx, roots []an.Root) {
 	}
 	c.Count("LIVE", n)
 	c.Floor("LIVE", 2)
+	// every round of the reporting loop sleeps: no path goes around the tick (a `continue` above it would make the loop
+	// spin without ever sending or syncing again)
+	{
+		var sleeps []*ssa.BasicBlock
+		var outer *natLoop
+		for _, b := range loop.Blocks {
+			for _, in := range b.Instrs {
+				if call, ok := in.(*ssa.Call); ok && strings.HasSuffix(an.CalleeName(&call.Call), "ThreadGroup).Sleep") {
+					sleeps = append(sleeps, b)
+				}
+			}
+		}
+		for _, l := range loopsOf(loop) {
+			// the reporting loop is the outermost loop that contains a sleep
+			has := false
+			for _, sb := range sleeps {
+				if l.body[sb] {
+					has = true
+				}
+			}
+			if has && (outer == nil || len(l.body) > len(outer.body)) {
+				outer = l
+			}
+		}
+		if outer == nil {
+			c.Violated("LIVE", loop, loop.Pos(), an.KeyOf(loop, "round-sleeps"), "the reporting loop has no round that sleeps", "no tg.Sleep inside a loop")
+		} else {
+			sleepSet := map[*ssa.BasicBlock]bool{}
+			for _, sb := range sleeps {
+				sleepSet[sb] = true
+			}
+			c.Check(outer.everyIterationThroughAny(sleepSet), "LIVE", loop, outer.header.Instrs[0].Pos(), an.KeyOf(loop, "round-sleeps"), "every round of the reporting loop passes a tg.Sleep (no path back to the top of the loop goes around the tick: the loop can neither spin nor skip scheduling the next sync)", fmt.Sprintf("%d sleep sites", len(sleeps)))
+		}
+	}
 	// no panic / blocking network call directly in the loop other than the UDP send
 	syncAsync := false
 	for g := range p.Effect(loop).Spawns {
